@@ -252,6 +252,12 @@ def run (s : St) (toks : List String) : St × String :=
       match setRequiresGrad s.ts i b with
       | some ts => ({ s with ts := ts }, "ok") | none => (s, "rejected")
     | _, _ => (s, "bad-op")
+  | ["setrgs", b, is] =>
+    match parseBool? b, parseNatList? is with
+    | some b, some is =>
+      let (ts, ok) := setRequiresGradAll s.ts is b
+      ({ s with ts := ts }, if ok then "ok" else "rejected")
+    | _, _ => (s, "bad-op")
   | ["ctx", "new", k] =>
     let kind := if k = "ng" then CtxKind.noGrad else CtxKind.retainGrads
     ({ s with ctxs := s.ctxs ++ [ctxNew s.ts.modes kind] }, s!"c{s.ctxs.length}")
